@@ -96,9 +96,14 @@ def check(case):
     for i, (a, b) in enumerate(zip(A, B)):
         ri = r[i]
         require(np.isfinite(ri), "finite", "%s(%r,%r) = %r is not finite" % (case["limiter"], a, b, ri))
+        # element-wise: the same pair alone in an array gives the same bits; a numpy *scalar* call may differ by an ulp because x**2 on a
+        # scalar goes through libm pow() (not correctly rounded) while arrays use a multiplication
+        s1 = np.asarray(lim(np.array([a]), np.array([b])), dtype=float)
+        require(s1.shape == (1,) and float(s1[0]) == ri, "elementwise",
+                "%s on the single pair (%r,%r) gives %r but %r as element %d of an array" % (case["limiter"], float(a), float(b), float(s1[0]), float(ri), i))
         si = np.asarray(lim(np.float64(a), np.float64(b)), dtype=float)
-        require(si.shape == () and float(si) == ri, "elementwise",
-                "scalar %s(%r,%r)=%r differs from array element %r" % (case["limiter"], a, b, float(si), ri))
+        require(si.shape == () and abs(float(si) - ri) <= 4 * EPS * abs(ri), "elementwise-scalar",
+                "scalar %s(%r,%r)=%r differs from the array element %r" % (case["limiter"], float(a), float(b), float(si), float(ri)))
         if a == 0 or b == 0 or (a > 0) != (b > 0):
             require(ri == 0, "zero-when-opposite-or-vanishing", "%s(%r,%r) = %r, expected 0" % (case["limiter"], a, b, ri))
             labels.add("opposite-or-zero")
